@@ -28,7 +28,7 @@ def observe(cfg):
     """returns (list of step records, list of failures of the interleaving oracle)"""
     jax, jnp, np, eqx, jinns = jx()
     import jinns.solver._rar as R
-    loss, P = problem(cfg["kind"], cfg.get("dim", 2), cfg.get("vec", False), cfg.get("system", False))
+    loss, P = problem(cfg["kind"], cfg.get("dim", 2), cfg.get("vec", False), cfg.get("system", False), cfg.get("scalar", False))
     g = generator(cfg["kind"], cfg)
     g, st, sf = R.init_rar(g)
     steps, fails = [], []
@@ -199,6 +199,8 @@ def generate(tier, seed, casedir, variant):
                 cfg["tmin"] = [0.0, 0.5, -1.0, 2.0][j % 4]       # time domains that do not start at 0
             if kind != "nonstatio" and j % 2 == 1:
                 cfg["vec"] = True                                 # residual with two components
+            if kind != "nonstatio" and j % 5 == 0:
+                cfg["scalar"] = True; cfg.pop("vec", None)      # the equation returns a bare number per point
             if j % 5 == 2 or (kind == "nonstatio" and j % 5 == 4):
                 cfg["system"] = True; cfg.pop("vec", None)        # a system loss: two unknowns, two equations
             nruns += 1
